@@ -421,7 +421,7 @@ func TestFamily(t *testing.T) {
 	}
 	// exhaustive small-scope enumerations for the RPC properties (shallow in the quick tier)
 	rpcProp := *flagProperty == "C02" || *flagProperty == "C13" || *flagProperty == "C05" || *flagProperty == "C03" || *flagProperty == "C04" ||
-		*flagProperty == "C06" || *flagProperty == "C07"
+		*flagProperty == "C06" || *flagProperty == "C07" || *flagProperty == "C08"
 	if *flagReplay == "" && (*flagEnum > 0 || rpcProp) {
 		depth := *flagEnum
 		if depth == 0 {
